@@ -50,6 +50,85 @@ def opt_code(x):
     return 0 if x is None else max(x, 0) + 1
 
 
+# ---------------------------------------------------------------------------------------------------------
+# the catalogue of calls (mirrors Lru.call_of) and the harness' own notion of "equal arguments"
+NAMES = ["x", "y", "a", "b"]
+MAXCODE = 16 + 6 * 20
+
+
+def call_of(a: int):
+    """code -> (args, kwargs in call order)"""
+    from decimal import Decimal
+    from fractions import Fraction
+
+    if a < 16:
+        v = a // 2
+        return ((float(v) if a % 2 else v),), {}
+    b = a - 16
+    v, t, f = b % 4, (b // 4) % 5, b // 20
+    x = [v, float(v), (bool(v) if v <= 1 else v), Decimal(v), Fraction(v)][t]
+    if f == 0:
+        return (x,), {}
+    if f == 1:
+        return (), {"x": x}
+    if f == 2:
+        return (2,), {"y": x}
+    if f == 3:
+        return (), {"a": x, "b": 1}
+    if f == 4:
+        return (), {"b": 1, "a": x}
+    return (x, 1), {}
+
+
+def call_class(a: int, typed: bool):
+    """Equal arguments in the sense of the property: same positional values, same keyword names and values in the same
+    order (as functools.lru_cache: f(a=1, b=2) and f(b=2, a=1) are different calls), and - if typed - the same types
+    of positional AND keyword values.  Values are compared with ==."""
+    args, kw = call_of(a)
+    cls = (tuple(int(v) for v in args), tuple((n, int(v)) for n, v in kw.items()))
+    if typed:
+        cls += (tuple(type(v) for v in args), tuple(type(v) for v in kw.values()))
+    return cls
+
+
+_CANON = {}
+
+
+def canon(typed: bool):
+    """code -> least code of the catalogue with equal arguments (= the model's key_of), cross-checked against the
+    equality of the stdlib's functools._make_key on the same calls"""
+    if typed not in _CANON:
+        import functools
+
+        first, out, oracle = {}, {}, []
+        for a in range(MAXCODE):
+            out[a] = first.setdefault(call_class(a, typed), a)
+            args, kw = call_of(a)
+            k = functools._make_key(args, kw, typed)
+            # the stdlib returns a bare int / str for a single positional argument of exactly that type (documented:
+            # "such types may be cached separately even when typed is false"); AnyIO always builds the tuple
+            oracle.append(tuple(k) if isinstance(k, list) else (k,))
+        bad = [(a, b) for a in range(MAXCODE) for b in range(a)
+               if (oracle[a] == oracle[b] and hash(oracle[a]) == hash(oracle[b])) != (out[a] == out[b])]
+        _CANON[typed] = (out, bad)
+    return _CANON[typed]
+
+
+def expected_tuple(a: int, typed: bool):
+    """the key tuple functools.py builds for this call (lines 149-157)"""
+    from anyio.functools import initial_missing
+
+    args, kw = call_of(a)
+    key = tuple(args)
+    if kw:
+        key += (initial_missing,) + sum(kw.items(), ())
+    if typed:
+        key += tuple(type(v) for v in args)
+        if kw:
+            key += (initial_missing,) + tuple(type(v) for v in kw.values())
+    return key
+
+
 class LruRun:
     """Executes a flat op list against ONE real lru_cache-wrapped coroutine function, possibly over several
     consecutive event loops."""
@@ -59,6 +138,7 @@ class LruRun:
         self.effmax = None if maxsize is None else max(maxsize, 0)
         self.world = None
         self._sess = None
+        self._tuples = None
         self.ops: list[int] = []
         self.outs: list[int] = []
         self.step_obs: list[list[int]] = []
@@ -132,10 +212,13 @@ class LruRun:
 
         run = self
 
-        async def wrapped(x):
+        async def wrapped(*args, **kwargs):
             c = run.cid_of[id(asyncio.current_task())]
-            k = run.hkey(x)
             call = run.curcall.get(c)
+            k = call["key"]
+            if (args, list(kwargs.items())) != (call["args"], list(call["kwargs"].items())):
+                run.hit("value", k, f"the wrapped function was called with {args} {kwargs} instead of "
+                                    f"{call['args']} {call['kwargs']}")
             dobj = call.get("dictobj") if call else None
             if dobj is None and run.effmax != 0:
                 dobj = run.cur_dictobj()      # started within the Call step: the call's dict is the current one
@@ -191,24 +274,19 @@ class LruRun:
         self.end_loop()
 
     # ------------------------------------------------------------------ keys
-    def hkey(self, x) -> int:
-        """The harness' own notion of 'equal arguments' as the model key number."""
-        return 2 * int(x) + (1 if isinstance(x, float) else 0) if self.typed else int(x)
-
-    @staticmethod
-    def arg_of(a: int):
-        return float(a // 2) if a % 2 else a // 2
+    def hkey(self, a: int) -> int:
+        """The class of call code a under the harness' own notion of 'equal arguments', as the model key number."""
+        return canon(self.typed)[0][a]
 
     def dkey(self, t) -> int:
+        """model key of a key tuple found in the real entries dict (-1: not a tuple the documented scheme builds)"""
+        if self._tuples is None:
+            self._tuples = {}
+            for a in range(MAXCODE):
+                self._tuples.setdefault(expected_tuple(a, self.typed), self.hkey(a))
         try:
-            if self.typed:
-                if len(t) != 2 or t[1] not in (int, float):
-                    return -1
-                return 2 * int(t[0]) + (1 if t[1] is float else 0)
-            if len(t) != 1:
-                return -1
-            return int(t[0])
-        except (TypeError, ValueError, IndexError):
+            return self._tuples.get(t, -1)
+        except TypeError:
             return -1
 
     # ------------------------------------------------------------------ observation
@@ -337,10 +415,11 @@ class LruRun:
         cur0 = self.cur_dictobj()
         if code in (0, 7):
             actor = x
-            arg = self.arg_of(y)
+            args, kwargs = call_of(y)
             cached = self.cached
-            k = self.hkey(arg)
-            call = {"caller": x, "key": k, "begin": self.stepno, "T": w.loop.time(), "end": None,
+            k = self.hkey(y)
+            call = {"caller": x, "key": k, "code": y, "args": args, "kwargs": kwargs,
+                    "begin": self.stepno, "T": w.loop.time(), "end": None,
                     "result": None, "exec": None, "blocked": False, "overlap": None, "dictobj": None,
                     "lockobj": None, "scope_cancelled": code == 7}
             before = self.snap(cur0)
@@ -355,7 +434,7 @@ class LruRun:
             self.activity.append((self.stepno, k))
             if code == 0:
                 async def cmd(p):
-                    return await cached(arg)
+                    return await cached(*args, **kwargs)
             else:
                 self.cancel_req.add(x)
                 self.flags.add("call_in_cancelled_scope")
@@ -365,7 +444,7 @@ class LruRun:
 
                     with CancelScope() as sc:
                         sc.cancel()
-                        return await cached(arg)
+                        return await cached(*args, **kwargs)
                     return SCOPE_CANCELLED
             out = w.act(x, cmd)
             if self.effmax != 0:
@@ -440,6 +519,14 @@ class LruRun:
                     call["lockobj"] = after[k][1][1]
                 elif k in before and before[k][1][1] is not None:
                     call["lockobj"] = before[k][1][1]      # its placeholder is already gone again
+                if call["lockobj"] is None:
+                    # not under the key the documented scheme builds: look for the lock the task stands in
+                    task = w.puppets[actor].task
+                    for _t, (_v, lk, _e) in list(dobj.items()):
+                        if lk is not None and (self.blocked_in_lock(actor, lk) and lk.statistics().tasks_waiting
+                                               or getattr(lk, "_owner_task", None) is task):
+                            call["lockobj"] = lk
+                            break
                 self.keep.append(call["lockobj"])
             if out is None:
                 rk, rv = 9, 0
@@ -464,6 +551,8 @@ class LruRun:
                     self.stage[actor] = "lock"
                     if call["overlap"] is not None:
                         self.flags.add("contended_wait")
+                if self.stage.get(actor) == "lock":
+                    self.check_independence(actor, call)
             else:
                 finished = True
                 st_prev = self.stage.pop(actor, None)
@@ -494,7 +583,7 @@ class LruRun:
         try:
             return any(t is self.world.puppets[c].task for (t, _f) in lk._waiters)
         except Exception:  # noqa: BLE001
-            return True
+            return False
 
     # ------------------------------------------------------------------ evictions, recency, predicates
     def referenced(self, lock, but=None) -> bool:
@@ -654,6 +743,20 @@ class LruRun:
         self.hit("internal", k, f"internal error: caller {c} key {k} got unexpected {e!r}")
         return 8, 0
 
+    def check_independence(self, c, call):
+        """calls with different arguments do not block one another: a caller queued on a lock shares it only with
+        calls that have equal arguments"""
+        lk = call.get("lockobj")
+        if lk is None or not self.blocked_in_lock(c, lk):
+            return
+        for c2, cl in self.curcall.items():
+            if c2 != c and cl.get("lockobj") is lk and cl["key"] != call["key"]:
+                self.flags.add("blocked_by_other_arguments")
+                self.hit("independence", call["key"],
+                         f"independence: caller {c} {call['args']} {call['kwargs']} is queued on the lock of the call "
+                         f"of caller {c2} {cl['args']} {cl['kwargs']}, which has different arguments")
+                return
+
     def check_reuse(self, c, call):
         """later callers reuse the first result: c started an execution of its own although the flight that was
         in progress (in the same entries dict) when it called has meanwhile completed successfully."""
@@ -766,8 +869,7 @@ class LruRun:
                 keys.append(cl["key"])
         if self.effmax != 0:
             for k in reversed(keys):
-                a = k if self.typed else 2 * k
-                self.probe(0, a)
+                self.probe(0, k)       # the key number is the least call code of its class
         self.retention_bound()
         if w.loop.errors:
             self.hit("loop", None, f"loop errors: {w.loop.errors[:2]}")
@@ -841,6 +943,47 @@ def run_script(cfg, flat_ops, quiesce=True, strict=False):
         return r
 
 
+def pick_code(rng: random.Random, nkeys: int, typed: bool, pkw: float) -> int:
+    """a call code: mostly one positional int/float, sometimes keyword / mixed forms with values of other types"""
+    v = rng.randrange(nkeys)
+    if rng.random() >= pkw:
+        return 2 * v + (1 if rng.random() < (0.3 if typed else 0.1) else 0)
+    return 16 + (rng.randrange(6) * 5 + rng.randrange(5)) * 4 + min(v, 3)
+
+
+def key_case(rng: random.Random):
+    """Directed family for the key construction: calls whose arguments are equal and hash-equal but of different
+    types (int, float, bool, Decimal, Fraction), passed positionally, by keyword, mixed and with two keywords in
+    both orders; typed on/off; some in flight at the same time (independence), some in sequence (right value)."""
+    cfg = {"maxsize": rng.choice([None, 4, 8]), "ttl": None, "always_checkpoint": rng.random() < 0.25,
+           "typed": rng.random() < 0.7, "ncall": 4}
+    with new_run(cfg) as r:
+        r.flags.add("directed_keys")
+        w = r.world
+        try:
+            v = rng.randrange(2)
+            forms = rng.sample(range(6), rng.choice([1, 2, 2]))
+            for _ in range(rng.choice([6, 10, 14])):
+                idle = [c for c, p in w.puppets.items() if p.at_decision]
+                if not idle or rng.random() < 0.25:
+                    busy = r.busy()
+                    if busy:
+                        r.settle(rng.choice(busy))
+                    continue
+                c = rng.choice(idle)
+                a = 16 + (rng.choice(forms) * 5 + rng.randrange(5)) * 4 + (v if rng.random() < 0.8 else rng.randrange(4))
+                r.do(0, c, a)
+                if rng.random() < 0.5:
+                    r.settle(c)
+                else:
+                    r.settle(c, finish=False)
+            r.quiesce()
+        except Exception as e:  # noqa: BLE001
+            r.crash = f"{type(e).__name__}: {e}"
+            r.valid = False
+        return r
+
+
 def random_cfg(rng: random.Random):
     return {
         "maxsize": rng.choice([None, 0, 1, 1, 2, 2, 3, -1] if rng.random() < 0.5 else [1, 2, 3]),
@@ -858,15 +1001,14 @@ def random_case(rng: random.Random, nsteps: int):
            5: (rng.choice([0.5, 2]) if cfg["ttl"] is not None else 0.05), 6: rng.choice([0.1, 0.1, 0.6]),
            8: rng.choice([0.0, 0.0, 0.5])}
     px = rng.choice([0.0, 0.0, 0.15, 0.4])
+    pkw = rng.choice([0.0, 0.15, 0.5])
     with new_run(cfg) as r:
         try:
             for _ in range(nsteps):
                 en = r.enabled()
                 c, x = rng.choices(en, [wts[e[0]] for e in en])[0]
                 if c == "call":
-                    v = rng.randrange(nkeys)
-                    a = 2 * v + (1 if rng.random() < (0.3 if cfg["typed"] else 0.1) else 0)
-                    r.do(7 if rng.random() < px else 0, x, a)
+                    r.do(7 if rng.random() < px else 0, x, pick_code(rng, nkeys, cfg["typed"], pkw))
                 elif c == 1:
                     r.do(1, x, r.fresh())
                 elif c == 2:
@@ -1166,7 +1308,7 @@ def split_steps(flat):
     return out
 
 
-FAMILIES = (directed_case, ttl_case, findings_case, findings_case)
+FAMILIES = (directed_case, ttl_case, findings_case, findings_case, key_case)
 
 
 def check(tier: str) -> int:
@@ -1176,7 +1318,9 @@ def check(tier: str) -> int:
         "cancellation modelled as native Task.cancel() on a blocked caller plus calls issued inside an already "
         "cancelled scope; the wrapped function always suspends once (a non-suspending wrapped function is the special "
         "case WrappedReturns;Resume scheduled back to back); a new event loop starts only with no call in progress; "
-        "keyword arguments not exercised",
+        "calls are drawn from a catalogue of 136 shapes (positional / keyword / mixed / two keywords in both orders, "
+        "values 0..3 as int, float, bool, Decimal, Fraction); the harness' notion of equal arguments is cross-checked "
+        "against functools._make_key",
         "collections.OrderedDict semantics (assignment keeps position, move_to_end, popitem(last=False)) as modelled",
     ]
     proofs_ok = core.proof_stage(rep, "props/C20.v")
@@ -1264,6 +1408,10 @@ def check(tier: str) -> int:
                                      "stale_count": small.fp, "maxsize0_concurrent": small.fb},
                                  "replay": "python harness/c20.py <this file>"})
     tie_broken = []
+    for ty in (False, True):
+        if canon(ty)[1]:
+            tie_broken.append(f"the harness' notion of equal arguments disagrees with functools._make_key "
+                              f"(typed={ty}) on call codes {canon(ty)[1][:3]}")
     if not proofs_ok:
         tie_broken.append("proof obligation: " + str(rep.coverage.get("proof_failure", {}).get("where")))
     if disagreements:
@@ -1345,7 +1493,7 @@ def check(tier: str) -> int:
                  "expiry_recompute", "directed", "directed_ttl", "wrapped_raised", "internal_keyerror",
                  "double_flight", "exceeds_maxsize", "clear", "clear_in_flight", "new_loop", "new_loop_stale_count",
                  "call_in_cancelled_scope", "evict_uncounted_placeholder", "dead_placeholder_counted",
-                 "bypass_concurrent"):
+                 "bypass_concurrent", "directed_keys"):
         if not flags.get(need):
             rep.notes.append(f"generator self-check: predicate {need} never reached")
     return rep.finish()
